@@ -391,6 +391,9 @@ class CSSSerializer:
         """serializes a complete CSSStyleSheet"""
         useduris = stylesheet._getUsedURIs()
         out = []
+        # (indentSpecificities) every sheet starts without remembered selectors
+        self._selectors = []
+        self._selectorlevel = 0
         for rule in stylesheet.cssRules:
             if (
                 self.prefs.keepUsedNamespaceRulesOnly
@@ -780,6 +783,9 @@ class CSSSerializer:
                 # save new reference
                 self._selectors.append(rule.selectorList)
                 self._selectorlevel = 0
+        else:
+            # experimental feature off: no indentation left over from before
+            self._selectorlevel = 0
 
         # TODO ^ RESOLVE!!!!
 
